@@ -5,6 +5,7 @@ package main
 // calls of the real execution.
 
 import (
+	"encoding/binary"
 	"encoding/json"
 	"fmt"
 	"strings"
@@ -13,6 +14,7 @@ import (
 	"github.com/nspcc-dev/neo-go/pkg/core/native"
 	"github.com/nspcc-dev/neo-go/pkg/core/native/nativenames"
 	"github.com/nspcc-dev/neo-go/pkg/core/transaction"
+	"github.com/nspcc-dev/neo-go/pkg/encoding/bigint"
 	"github.com/nspcc-dev/neo-go/pkg/io"
 	"github.com/nspcc-dev/neo-go/pkg/neotest"
 	"github.com/nspcc-dev/neo-go/pkg/smartcontract"
@@ -31,6 +33,7 @@ import (
 )
 
 type runResult struct {
+	cf      int // call flags recorded by proxy.onNEP17Payment (-1: not run)
 	halt    bool
 	msg     string // fault message
 	writes  int    // keys put or deleted in the execution's private store
@@ -71,6 +74,14 @@ func (w *world) run(script []byte, entry callflag.CallFlag, extraSigners ...util
 	res.writes = len(b.Put) + len(b.Deleted)
 	res.notifs = len(ic.Notifications)
 	res.tree = ic.VM.GetInvocationTree()
+	res.cf = -1
+	if w.proxyID != 0 {
+		for _, kv := range b.Put { // only a value written by THIS execution counts (storage key = prefix, id LE, "cf")
+			if len(kv.Key) == 7 && string(kv.Key[5:]) == "cf" && int32(binary.LittleEndian.Uint32(kv.Key[1:5])) == w.proxyID {
+				res.cf = int(bigint.FromBytes(kv.Value).Int64())
+			}
+		}
+	}
 	if res.halt {
 		res.result = ic.VM.Estack().ToArray()
 	}
@@ -381,6 +392,14 @@ func (w *world) sweepNatives(o *hx.Out, k int) {
 				effectOracle(o, k, what, ":"+name+"."+m.MD.Name+legacy, feff, r, nested)
 				if m.MD.Safe && r.halt && (r.writes > 0 || r.notifs > 0) {
 					o.Fail("safe-method-modifies", k, "%s is safe and changed %d keys / emitted %d notifications (requested flags %d)", what, r.writes, r.notifs, F)
+				}
+				if r.cf >= 0 && nested > 0 {
+					// the reward / payment callback ran in the proxy: its flags are the native context's flags & All
+					o.Line(fmt.Sprintf("nativecall %d", int(feff)), fmt.Sprint(r.cf))
+					o.Count("sweep:native-callback-flags-observed")
+					if r.cf&^int(feff) != 0 {
+						o.Fail("flags-grew", k, "%s: callback context has flags %d, the native context %d", what, r.cf, feff)
+					}
 				}
 				o.Count("sweep:native:" + verdict)
 				if r.halt {
